@@ -66,7 +66,14 @@ def probe_fixes(ctx: Ctx) -> dict:
     _, hits, _ = w.observe()
     fxba = not any(t in ("__splink__df_count", "__splink__df_count_cumulative_blocks", "__splink__block_counts") for t, _ in hits)
     w.close()
-    return {"fx77": fx77, "fx716": fx716, "fx78": fx78, "fx717": fx717, "fx718": fx718, "fxba": fxba,
+    w = X.World("duckdb")
+    w.apply(("complete",))
+    w.reset_trackers()
+    w.apply(("complete",))
+    _, hits, _ = w.observe()
+    fxco = not any(t == "__splink__df_all_column_completeness_renames" for t, _ in hits)
+    w.close()
+    return {"fx77": fx77, "fx716": fx716, "fx78": fx78, "fx717": fx717, "fx718": fx718, "fxba": fxba, "fxco": fxco,
             "graph_metrics_errors": [r1, r2]}
 
 
@@ -241,7 +248,7 @@ def history_stage(ctx: Ctx, fixes: dict):
     # exhaustive short histories over the alphabet
     depth = 2 if ctx.quick else 3
     for d in range(1, depth + 1):
-        for hist in itertools.product(ALPHABET, repeat=d):
+        for hist in itertools.product(ALPHABET if d < 3 else ALPHABET[:11], repeat=d):    # length 3: the 11 first-wave letters
             if ctx.quick and d == 2 and ctx.rng.random() < 0.55:
                 # quick tier: a seeded 45% sample of the 169 pairs (all of them in the thorough tier)
                 continue
